@@ -6,6 +6,7 @@ mod gen;
 mod insp;
 mod replay;
 mod run;
+mod rx;
 mod tree;
 mod val;
 
@@ -98,6 +99,16 @@ fn real_main(cmd: String, args: Vec<String>) -> i32 {
                     eprintln!("{e}");
                     2
                 }
+            }
+        }
+        "regex" => {
+            let len: usize = arg(&args, "--len").and_then(|x| x.parse().ok()).unwrap_or(3);
+            let j = rx::run(len);
+            println!("{j}");
+            if j["disagreements"].as_array().map_or(true, |a| a.is_empty()) {
+                0
+            } else {
+                1
             }
         }
         "deepcases" => {
